@@ -353,8 +353,96 @@ const char* point_name(int p)
     }
 }
 
+// A different workload shape: rapid create / use / destroy of small pools.  Shutdown races whose window lies inside
+// `condition_variable::wait(lock, predicate)` (between the predicate and the sleep) cannot be widened by a schedule-point
+// delay; they are only reachable by volume: a pool is destroyed a few hundred nanoseconds after its last task ended, or
+// right after construction, thousands of times.  The deadlock watchdog decides (phase "destroy").
+void run_churn(vf::ctx_t& c)
+{
+    auto& rng = c.rng;
+    // NB: the log slots of the previous case are given back (and cleared) by the first round below
+    g_clock.store(0, RLX);
+    g_case_seed.store(c.seed, RLX);
+    g_case_index.store(c.index, RLX);
+    g_delay_mode.store(static_cast<int>(rng.integer(0, 1)), RLX); // none or light: the point is timing, not delays
+
+    const int  rounds         = 150;
+    const int  threads_before = count_threads();
+    int64_t    ran_total      = 0;
+    const auto size           = static_cast<size_t>(rng.chance(0.7) ? 1 : rng.integer(2, 3));
+    for (int round = 0; round < rounds; ++round)
+    {
+        // every round is its own epoch: the (already joined) threads of the previous round give their log slots back
+        for (int i = 0, n = std::min(g_nlogs.load(RLX), max_logs); i < n; ++i)
+        {
+            g_logs[i].events.clear();
+        }
+        g_nlogs.store(0, RLX);
+        g_epoch.fetch_add(1, RLX);
+        const int variant = static_cast<int>(rng.integer(0, 3));
+        const int spin    = static_cast<int>(rng.integer(0, 1500));
+        g_phase.store(1, RLX);
+        auto             pool = std::make_unique<pool_t>(size);
+        std::atomic<int> ran{0};
+        future_t         future;
+        g_phase.store(3, RLX);
+        if (variant != 0)
+        {
+            future = pool->enqueue([&ran](size_t) { ran.fetch_add(1, RLX); });
+        }
+        if (variant == 1)
+        {
+            g_phase.store(4, RLX);
+            future.wait();
+        }
+        else if (variant == 2)
+        {
+            g_phase.store(4, RLX);
+            while (ran.load(RLX) == 0)
+            {
+                g_progress.fetch_add(1, RLX);
+            }
+        }
+        for (volatile int k = 0; k < spin; ++k)
+        {
+        }
+        g_phase.store(5, RLX);
+        pool.reset(); // a lost stop request hangs here: the watchdog reports C17|deadlock|destroy
+        g_phase.store(6, RLX);
+        const int r = ran.load(RLX);
+        ran_total += r;
+        c.count("churn_pools");
+        if (r > 1 || ((variant == 1 || variant == 2) && r != 1))
+        {
+            c.violation("C17|churn|task-count", vf::json_t().kv("ran", r).kv("variant", variant).kv("pool", size));
+        }
+        if (variant != 0 && future.valid() && future.wait_for(std::chrono::seconds(0)) != std::future_status::ready)
+        {
+            c.violation("C17|shutdown|future-never-ready", vf::json_t().kv("variant", variant).kv("pool", size).kv("scenario", "churn"));
+        }
+    }
+    g_phase.store(0, RLX);
+    int threads_after = count_threads();
+    for (int i = 0; i < 200 && threads_after != threads_before; ++i)
+    {
+        std::this_thread::sleep_for(std::chrono::milliseconds(1));
+        threads_after = count_threads();
+    }
+    if (threads_after != threads_before)
+    {
+        c.violation("C17|shutdown|threads-alive", vf::json_t().kv("before", threads_before).kv("after", threads_after).kv("scenario", "churn"));
+    }
+    c.count("churn_cases");
+    c.count("churn_tasks_run", ran_total);
+}
+
 void run_case(vf::ctx_t& c)
 {
+    if (c.rng.chance(0.12))
+    {
+        run_churn(c);
+        return;
+    }
     auto& rng = c.rng;
 
     // ---- reset the monitor ------------------------------------------------------------------------------------
@@ -362,6 +450,14 @@ void run_case(vf::ctx_t& c)
     for (int i = 0; i < std::min(nlogs_before, max_logs); ++i)
     {
         g_logs[i] = log_t{};
+    }
+    for (int i = std::min(nlogs_before, max_logs); i < max_logs; ++i)
+    {
+        if (!g_logs[i].events.empty())
+        {
+            std::fprintf(stderr, "harness: stale events in log slot %d\n", i);
+            _exit(3);
+        }
     }
     g_nlogs.store(0, RLX);
     g_epoch.fetch_add(1, RLX);
